@@ -3,6 +3,7 @@ package c17
 import (
 	"fmt"
 	"hash/fnv"
+	"math"
 	"math/big"
 
 	"github.com/tuneinsight/lattigo/v6/ring"
@@ -177,6 +178,32 @@ func boundaryParam(dc distCfg, n int) bool {
 	return false
 }
 
+// runLimit: smallest run length L of one repeated value whose probability, N*pm^L with pm the
+// largest single-value probability of the declared distribution, is below 1e-12 (0 = not judged).
+func runLimit(dc distCfg, n int) int {
+	var pm float64
+	switch dc.Kind {
+	case "gauss":
+		if dc.bigPath() || dc.Sigma > 1e6 {
+			pm = 1e-3
+		} else {
+			_, pm = gaussModel(dc.Sigma, dc.Bound)
+		}
+	case "ternP":
+		pm = math.Max(1-dc.P, dc.P/2)
+	default:
+		return 0
+	}
+	if pm >= 1 {
+		return 0
+	}
+	L := int(math.Ceil(math.Log(1e-12/float64(n))/math.Log(pm))) + 1
+	if L > n {
+		return 0
+	}
+	return L
+}
+
 // reuse detector for uniform outputs: no window of w consecutive residues (w*bits >= 100) may occur twice.
 type reuseDet struct {
 	seen map[uint64]bool
@@ -309,6 +336,22 @@ func runScript(c *eng.Ctx, sc scriptCase) {
 		case "ternP", "ternH":
 			checkTernary(c, sc, st, e.pol, where)
 		}
+		// 3b. no implausibly long run of one value (probability < 1e-12 under the declared distribution)
+		if L := runLimit(dc, n); L > 0 {
+			best, cur := 1, 1
+			for j := 1; j < n; j++ {
+				if e.pol.Coeffs[0][j] == e.pol.Coeffs[0][j-1] {
+					cur++
+					best = max(best, cur)
+				} else {
+					cur = 1
+				}
+			}
+			c.Max("max_run_of_equal_coefficients", int64(best))
+			c.Check(best < L, pre+"|degenerate-run", func() string {
+				return fmt.Sprintf("%s: %d consecutive equal coefficients (limit %d at p<1e-12)", where(), best, L)
+			})
+		}
 		// 4. result = prior (ReadAndAdd) + M(e), M = exact Montgomery form when requested
 		smallq := false
 		if dc.Kind == "gauss" && !dc.bigPath() {
@@ -317,10 +360,6 @@ func runScript(c *eng.Ctx, sc scriptCase) {
 					smallq = true
 				}
 			}
-		}
-		sfx := ""
-		if smallq {
-			sfx = "|bound>=qi"
 		}
 		mism, rng := -1, -1
 		rescaled := true // mismatch explained by MForm(prior+e)
@@ -360,8 +399,13 @@ func runScript(c *eng.Ctx, sc scriptCase) {
 			}
 		}
 		c.Eval(2)
+		if smallq && (rng >= 0 || mism >= 0) {
+			x := max(rng, mism)
+			c.Violate(smallqSig, fmt.Sprintf("%s: row %d idx %d got %d, prior %d, fresh sample (plain replay) %d, q=%d, floor(B+1/2)=%v", where(), x/n, x%n, o1.pol.Coeffs[x/n][x%n], priorAt(o1, x/n, x%n), e.pol.Coeffs[x/n][x%n], mods[x/n], Bp), sc)
+			continue
+		}
 		if rng >= 0 {
-			c.Violate(pre+"|out-of-range"+sfx, fmt.Sprintf("%s: row %d idx %d value %d >= q=%d", where(), rng/n, rng%n, o1.pol.Coeffs[rng/n][rng%n], mods[rng/n]), sc)
+			c.Violate(pre+"|out-of-range", fmt.Sprintf("%s: row %d idx %d value %d >= q=%d", where(), rng/n, rng%n, o1.pol.Coeffs[rng/n][rng%n], mods[rng/n]), sc)
 		}
 		if mism >= 0 {
 			k, j := mism/n, mism%n
@@ -372,15 +416,19 @@ func runScript(c *eng.Ctx, sc scriptCase) {
 			case st.Op == "raa" && dc.Kind == "gauss" && dc.Mont && rescaled:
 				c.Violate(pre+".ReadAndAdd|not-additive|montgomery-accumulator-rescaled", det, sc)
 			case st.Op == "raa":
-				c.Violate(pre+".ReadAndAdd|not-additive"+sfx, det, sc)
+				c.Violate(pre+".ReadAndAdd|not-additive", det, sc)
 			case dc.Mont:
-				c.Violate(pre+"."+opName+"|montgomery-mismatch"+sfx, det, sc)
+				c.Violate(pre+"."+opName+"|montgomery-mismatch", det, sc)
 			default:
 				c.Violate(pre+"."+opName+"|not-reproducible", det, sc)
 			}
 		}
 	}
 }
+
+// smallqSig: every failure of the uint64 Gaussian path observed while some modulus of the level
+// is <= floor(B+1/2) (a coefficient can exceed that modulus).
+const smallqSig = "C17|GaussianSampler|wrong-residues|bound>=qi"
 
 func priorAt(o outRec, k, j int) uint64 {
 	if k < len(o.prior.Coeffs) {
@@ -434,7 +482,7 @@ func checkGauss(c *eng.Ctx, sc scriptCase, st step, e ring.Poly, crts map[int]*r
 		}
 		sig := "C17|GaussianSampler|" + class
 		if smallq {
-			sig += "|bound>=qi"
+			sig = smallqSig
 		}
 		if dc.bigPath() && class == "above-bound" {
 			if v.Sign() < 0 {
@@ -595,6 +643,25 @@ func runQPScript(c *eng.Ctx, qc qpCase) {
 	if !c.Try(pre, func() { r1 = run(); r2 = run() }) {
 		return
 	}
+	// WithPRNG(g) behaves as a new sampler on g, whatever the receiver has consumed
+	c.Try(pre+".WithPRNG", func() {
+		pa, _ := sampling.NewKeyedPRNG(key)
+		base := ringqp.NewUniformSampler(pa, rqp)
+		base.AtLevel(0, -1).ReadNew()
+		base.ReadNew()
+		g1, _ := sampling.NewKeyedPRNG(key2)
+		g2, _ := sampling.NewKeyedPRNG(key2)
+		w, f := base.WithPRNG(g1), ringqp.NewUniformSampler(g2, rqp)
+		c.Check(sameQP(w.ReadNew(), f.ReadNew()) && sameQP(w.AtLevel(0, -1).ReadNew(), f.AtLevel(0, -1).ReadNew()),
+			pre+".WithPRNG|differs-from-new-sampler-on-same-generator", nil)
+		pa.Reset()
+		bq := ring.NewUniformSampler(pa, rq)
+		bq.AtLevel(0).ReadNew()
+		g1.Reset()
+		g2.Reset()
+		wq, fq := bq.WithPRNG(g1), ring.NewUniformSampler(g2, rq)
+		c.Check(samePoly(wq.ReadNew(), fq.ReadNew()), "C17|UniformSampler.WithPRNG|differs-from-new-sampler-on-same-generator", nil)
+	})
 	det := &reuseDet{seen: map[uint64]bool{}}
 	for i, st := range script {
 		if st.Op == "at" || st.Op == "withprng" {
